@@ -102,6 +102,10 @@ def check(run):
         run.violation("lemma:" + lfailed[0][0][:60], "composition lemma of the un-merge regions is no longer proved: %s" % lfailed[0][0],
                       {"lemma": lfailed[0][0], "model": str(lfailed[0][1])[:2000]}, no_input=True)
     run.trust("pyvc", "z3 5.1.0")
+    run.assume("A-alias (merge-application loop of sympy_simplify): the rows of all_inv_subs are not read through another name during the loop, so X[i].append(v) is X[i] = X[i] + [v]",
+               "REL1 / REL (assumed): the triples gathered by the searches of sympy_simplify satisfy REL1(all_fun[n], s, all_fun[m]) on the strings before the application loop; "
+               "the per-step relation of sympy_simplify's other rewriting steps is assumed (bounded part: every recorded map is checked numerically)",
+               "round files: row i of inv_subs_<c>_round_<r>.txt belongs to the function on line i of inv_idx_<c>_round_<r>.txt, the index lines are distinct (the writer lists the indices of the non-None chains once)")
     run.assume("A-str: strings are abstract labels with equality", "A-ext: OrderedDict / set / dict comprehension models of pyvc (insertion order, membership)")
     groups = genjobs.job_groups(tier, run.seed, per_lib_sample=2500 if tier == "quick" else None)
     root, res = genjobs.run_groups(run, "c03", groups)
